@@ -2131,19 +2131,69 @@ impl Engine for C11 {
 				"Codec::read is driven over a stream socketpair end wrapped as TcpStream (same recv/SO_RCVTIMEO path); the peer closes after the input, so every stream ends in a connection error".into(),
 				"decode_message is private: body subjects call BufReader::body::<T>() with the same type table, and codec.read reaches decode_message itself".into(),
 				"segment validation context: 9-leaf kernel / output / range-proof MMRs, a 17-chunk bitmap accumulator and an unspent bitmap chosen here; calls mirror Desegmenter::add_*_segment".into(),
-				"Codec attachment mode (expect_attachment) and UTF-8-invalid text for from_hex are outside the space".into(),
+				"Codec attachment mode (expect_attachment) and UTF-8-invalid text for from_hex are outside the space (from_hex takes a &str; valid text with characters of 2-4 bytes is part `text`)".into(),
 				"random byte strings are not part of the verdict".into(),
 			],
 			exhaustive: true,
 		}
 	}
 	fn parts(&self, _tier: Tier) -> Vec<(&'static str, usize)> {
-		vec![("monitors", 1), ("short", 1), ("trunc", 1), ("fields", 1), ("bytes", 1), ("splice", 1)]
+		vec![("monitors", 1), ("short", 1), ("trunc", 1), ("fields", 1), ("bytes", 1), ("splice", 1), ("text", 1)]
 	}
 	fn run_part(&self, part: &str, tier: Tier, _shard: usize, _n: usize) -> Report {
 		if part == "worker" {
 			worker_main(tier);
 			return Report::new();
+		}
+		if part == "text" {
+			// hex text is a string, not bytes: every valid hex seed with one character of 2, 3 or 4 UTF-8 bytes
+			// replacing / inserted before the characters at every offset, and every string of at most 4
+			// characters over {'0', 'a', 'F', 'x', ' ', U+00E9, U+20AC, U+1F600}
+			let mut cat = catalogue().clone();
+			let wide: [&str; 4] = ["\u{e9}", "\u{7ff}", "\u{20ac}", "\u{1f600}"];
+			let mut inputs: Vec<Vec<u8>> = vec![];
+			for sd in cat.seeds.iter().filter(|s| s.kind == "hex:MerkleProof" && s.v == 1000) {
+				let text = String::from_utf8(sd.enc.bytes.clone()).expect("hex seed is text");
+				let n = text.len();
+				let offs: Vec<usize> = if n <= 80 { (0..=n).collect() } else { (0..=8).chain(n - 8..=n).collect() };
+				for w in wide.iter() {
+					for &o in &offs {
+						// inserted
+						inputs.push(format!("{}{}{}", &text[..o], w, &text[o..]).into_bytes());
+						// replacing 1, 2, 3 or 4 hex digits (keeps / changes the parity of the byte length)
+						for k in 1..=4usize {
+							if o + k <= n {
+								inputs.push(format!("{}{}{}", &text[..o], w, &text[o + k..]).into_bytes());
+							}
+						}
+					}
+				}
+			}
+			let alpha: [&str; 8] = ["0", "a", "F", "x", " ", "\u{e9}", "\u{20ac}", "\u{1f600}"];
+			for len in 1..=4usize {
+				let mut idx = vec![0usize; len];
+				loop {
+					inputs.push(idx.iter().map(|i| alpha[*i]).collect::<String>().into_bytes());
+					let mut k = 0;
+					while k < len {
+						idx[k] += 1;
+						if idx[k] < alpha.len() {
+							break;
+						}
+						idx[k] = 0;
+						k += 1;
+					}
+					if k == len {
+						break;
+					}
+				}
+			}
+			inputs.sort();
+			inputs.dedup();
+			cat.explicit = inputs.into_iter().map(|input| Explicit { subject: "merkleproof.from_hex".into(), v: 1000, input }).collect();
+			let mut r = run_pool(&cat, tier, "explicit");
+			r.extra.insert("text_inputs".into(), json!(cat.explicit.len() as u64));
+			return r;
 		}
 		let cat = catalogue();
 		let mut r = run_pool(cat, tier, part);
